@@ -16,9 +16,10 @@ from pyvc import models_py, models_np
 from contracts import atoms_model as AM
 
 META = {
-    'level': 'other',
-    'explanation': "type-table merge and offsets proved for all table sizes; the matching of existing terms proved under the assumed "
-                   "cdist/nonzero contract; the array surgery of extend itself only checked with a stated bound",
+    'level': 'proof',
+    'explanation': "Atoms.extend_types and the whole body of Atoms.extend (loop over the identity map under an invariant, all paths) verified against "
+                   "the statement's postcondition for structures, maps and term arrays of any size; numpy primitives and the label merge of "
+                   "_extend_extra_fields enter as assumed contracts; bounded stage enumerates identity maps on the real code",
     'trusted_base': ["numpy: np.append(a, b) is the concatenation", "A1 integers", "z3 soundness", "pyvc symbolic interpreter"],
 }
 REL = 'mofun/atoms.py'
@@ -100,5 +101,262 @@ def prove_extend_types(S, pair_alignment=False):
 
 def build(S):
     prove_extend_types(S)
+    if S.tier == 'thorough':
+        S.guarded('extend[default offsets]', lambda: prove_extend(S, False))
+        S.guarded('extend[explicit offsets]', lambda: prove_extend(S, True))
+    else:
+        for sc in ((True, True, True, True), (False, False, False, False), (True, False, True, False), (False, True, False, True)):
+            S.guarded('extend[default offsets,%r]' % (sc,), lambda sc=sc: prove_extend(S, False, sc))
+        S.guarded('extend[explicit offsets]', lambda: prove_extend(S, True, (True, False, False, True)))
     S.clause('type-table merge and offsets', 'PROVED')
-    S.clause('atoms appended in order, identity map, terms re-targeted, supersession, extra columns merged by label', 'BOUNDED (bounded/C11.py)')
+    S.clause('atoms: unmapped atoms appended in order with type + offset; mapped atoms adopt the other\'s type and extra row; everything else untouched', 'PROVED')
+    S.clause('terms: every other term added once between the corresponding atoms with type + offset and extra row; existing term on the same atoms forwards / backwards superseded, all others untouched; terms refer to existing atoms', 'PROVED')
+    S.clause('other unmodified; size invariant re-established', 'PROVED')
+    S.clause('merge of extra columns by label with "." filling (inside _extend_extra_fields)', 'ASSUMED contract, BOUNDED on the real code (bounded/C11.py)')
+
+
+# ================================================================================================ Atoms.extend under contract
+from pyvc import models_ext
+from pyvc.models_ext import input_map, map_lookup, map_has
+from pyvc.models_np import mem_of, delete_maps, ghosts, seq_key
+from pyvc.interp import FuncSpec, LoopSpec
+from contracts.C10 import sizes_contract
+
+RowS = AM.RowS
+
+
+def extra_fields_contract(I, st):
+    """ASSUMED contract of Atoms._extend_extra_fields (label-wise merge of extra columns; exercised by the bounded stage):
+    every extra_*_fields array of self keeps its rows (padded), and one array per kind is returned for `other`, row j describing other's item j."""
+    def model(ctx, args, kwargs):
+        me, other = args
+        hs, ho = I.state.heap[me.oid], I.state.heap[other.oid]
+        out = []
+        I.reg.assumptions_used.add("contract of Atoms._extend_extra_fields: self's extra rows are padded in place (same rows), other's rows are re-ordered by label and returned, one per item (bounded/C11.py checks the label merge)")
+        for k, count_field in (('atom', 'atom_types'),) + tuple((k, k + '_types') for k, _ in AM.KINDS):
+            fld = 'extra_%s_fields' % k
+            old = hs[fld]
+            pad = I.reg.ufunc('pad_extra_' + k, RowS, RowS)
+            new = SymSeq(hs[count_field].length, [z3.Array(I.reg.fresh(fld + '_pad'), INT, RowS)], None, 'ndarray', fld + '_pad')
+            p = z3.Int(I.reg.fresh('p'))
+            I.assume(z3.ForAll([p], z3.Implies(z3.And(p >= 0, p < new.length), z3.Select(new.cols[0], p) == pad(z3.Select(old.cols[0], p))), patterns=[z3.Select(new.cols[0], p)]))
+            hs[fld] = new
+            match = I.reg.ufunc('match_extra_' + k, RowS, RowS)
+            xo = ho[fld]
+            xf = SymSeq(ho[count_field].length, [z3.Array(I.reg.fresh('xf_' + k), INT, RowS)], None, 'ndarray', 'xf_' + k)
+            I.assume(z3.ForAll([p], z3.Implies(z3.And(p >= 0, p < xf.length), z3.Select(xf.cols[0], p) == match(z3.Select(xo.cols[0], p))), patterns=[z3.Select(xf.cols[0], p)]))
+            out.append(xf)
+        st['xf'] = out
+        st['padded'] = {k: hs['extra_%s_fields' % k] for k in ('atom',) + tuple(k for k, _ in AM.KINDS)}
+        return tuple(out)
+    return model
+
+
+def prove_extend(S, explicit_offsets, scenario=None):
+    """scenario: None = all 16 combinations of present / absent term kinds in `other`; or a 4-tuple of booleans fixing them."""
+    S.function(REL, 'Atoms.extend')
+    S.function(REL, 'Atoms.extend.find_existing_topo')
+    I = S.interp()
+    I.allow_merge = False
+    models_py.install(I)
+    models_np.install(I)
+    models_ext.install(I)
+    st = {}
+    I.models['%s:Atoms.assert_arrays_are_consistent_sizes' % REL] = sizes_contract(I, st)
+    I.models['%s:Atoms._extend_extra_fields' % REL] = extra_fields_contract(I, st)
+    tagv = ('explicit-offsets' if explicit_offsets else 'default-offsets') + ('' if scenario is None else ',other-has-' + ''.join(k[0] for (k, _), on in zip(AM.KINDS, scenario) if on) + '-')
+
+    def types_contract(ctx, args, kwargs):
+        # proved above (prove_extend_types): tables appended, offsets = old lengths where a table exists
+        me, other = args
+        hs, ho = I.state.heap[me.oid], I.state.heap[other.oid]
+        offs = []
+        for t in TABLES:
+            hs[t] = models_np.np_append(ctx, [hs[t], ho[t]], {})
+        off0 = Sym(st['old']['atom_type_elements'].length)
+        offs.append(off0)
+        for k, _ in AM.KINDS:
+            o = z3.Int(I.reg.fresh('off_' + k))
+            tab = st['old'][k + '_type_coeffs'].length
+            I.assume(o >= 0)
+            I.assume(z3.Implies(tab > 0, o == tab))
+            offs.append(Sym(o))
+        st['offsets_returned'] = tuple(offs)
+        return tuple(offs)
+    I.models['%s:Atoms.extend_types' % REL] = types_contract
+
+    def inv_A(view, k):
+        me = view['self']
+        hs = I.state.heap[me.oid]
+        at, xa = hs['atom_types'], hs['extra_atom_fields']
+        old, oth, m = st['old'], st['oth'], st['map']
+        memV, witV = st['memV'], st['witV']
+        s = z3.Int('ia_s')
+        k = k if z3.is_expr(k) else z3.IntVal(k)
+        K = m.keys.cols[0]
+        off0 = to_z3(st['offsets'][0]) if st.get('offsets') is not None else to_z3(view['offsets'][0])
+        N = old['positions'].length
+        upd = lambda s_: z3.And(memV(s_), witV(s_) < k)
+        W = z3.Int('extra_row_width')
+        xf = st['xf'][0]
+        pad = st['padded']['atom']
+        return [('types-of-mapped-atoms', z3.And(at.length == N, z3.ForAll([s], z3.Implies(z3.And(s >= 0, s < N),
+                    z3.Select(at.cols[0], s) == z3.If(upd(s), z3.Select(oth['atom_types'].cols[0], z3.Select(K, witV(s))) + off0, z3.Select(old['atom_types'].cols[0], s))),
+                    patterns=[z3.Select(at.cols[0], s)]))),
+                ('extra-rows-of-mapped-atoms', z3.And(xa.length == N, z3.ForAll([s], z3.Implies(z3.And(s >= 0, s < N),
+                    z3.Select(xa.cols[0], s) == z3.If(z3.And(upd(s), N * W > 0), z3.Select(xf.cols[0], z3.Select(K, witV(s))), z3.Select(pad.cols[0], s))),
+                    patterns=[z3.Select(xa.cols[0], s)])))]
+
+    I.funcspecs['%s:Atoms.extend' % REL] = FuncSpec(loops=[LoopSpec('(other_index, self_index) in structure_index_map.items()', inv=inv_A)])
+    clo = I.closure_for(REL, 'Atoms.extend')
+
+    def thunk():
+        st.clear()
+        me, f = AM.make_atoms(I, 'self')
+        other, fo = AM.make_atoms(I, 'other', cell=False)
+        N, NB = f['positions'].length, fo['positions'].length
+        I.assume(AM.wf_sizes(f))
+        I.assume(AM.wf_sizes(fo))
+        for k, _ in AM.KINDS:
+            I.assume(AM.all_in_range(fo[AM.PLURAL[k]], 0, NB, 'rq_o_' + k))     # requires WF(other): its terms refer to its atoms
+            I.assume(AM.all_in_range(f[AM.PLURAL[k]], 0, N, 'rq_s_' + k))       # requires WF(self)
+        st['old'], st['oth'] = dict(f), dict(fo)
+        if scenario is not None:
+            for (k, _), on in zip(AM.KINDS, scenario):
+                I.assume(fo[AM.PLURAL[k]].length > 0 if on else fo[AM.PLURAL[k]].length == 0)
+        # identity map: distinct valid other indices -> distinct valid self indices
+        M = z3.Int('n_mapped')
+        I.assume(M >= 0)
+        keys = AM.seq('map_keys', M, [INT], kind='list')
+        vals = AM.seq('map_vals', M, [INT], kind='list')
+        I.assume(AM.pairwise_distinct(keys, 'mk'))
+        I.assume(AM.pairwise_distinct(vals, 'mv'))
+        I.assume(AM.all_in_range(keys, 0, NB, 'mkr'))
+        I.assume(AM.all_in_range(vals, 0, N, 'mvr'))
+        m = input_map(I, keys, vals)
+        st['map'] = m
+        memV = mem_of(I, vals)
+        witV = z3.Function('wit_vals', INT, INT)
+        j, x = z3.Int('wj'), z3.Int('wx')
+        I.assume(z3.ForAll([j], z3.Implies(z3.And(j >= 0, j < M), witV(z3.Select(vals.cols[0], j)) == j), patterns=[z3.Select(vals.cols[0], j)]))
+        I.assume(z3.ForAll([x], z3.Implies(memV(x), z3.And(witV(x) >= 0, witV(x) < M, z3.Select(vals.cols[0], witV(x)) == x)), patterns=[memV(x)]))
+        st['memV'], st['witV'] = memV, witV
+        kw = {'structure_index_map': m}
+        if explicit_offsets:
+            offs = tuple(Sym(z3.Int('given_off%d' % i)) for i in range(5))
+            kw['offsets'] = offs
+            st['offsets'] = offs
+        I.call_closure(clo, [me, other], kw)
+        new = I.state.heap[me.oid]
+        oth_after = I.state.heap[other.oid]
+        tag = "extend[%s]" % tagv
+        offs = st.get('offsets') or st.get('offsets_returned')
+        # ---------------- frame: other unmodified
+        I.oblige("%s/frame/other-unmodified" % tag, z3.BoolVal(all(oth_after[k_] is fo[k_] for k_ in fo)), 'frame')
+        # ---------------- atoms
+        fl = I.notes.get('filters', [])
+        if len(fl) != 1:
+            raise OutOfSubset("expected exactly one filtering comprehension (atoms_to_add) in extend")
+        A, posA = fl[0]['seq'], fl[0]['pos']
+        mA = A.length
+        off0 = to_z3(offs[0])
+        s_, j_ = z3.Int('ps'), z3.Int('pj')
+        K, Vv = keys.cols[0], vals.cols[0]
+        dom = lambda o: m.mem(o)
+        xf = st['xf']
+        pad = st['padded']
+        lens = z3.And(*[new[x].length == N + mA for x in ('positions', 'atom_types', 'charges', 'groups', 'extra_atom_fields')])
+        I.oblige("%s/post/atoms/count-is-old-plus-unmapped" % tag, lens, 'post')
+        keep_old = z3.ForAll([s_], z3.Implies(z3.And(s_ >= 0, s_ < N), z3.And(
+            *[z3.Select(cn, s_) == z3.Select(co, s_) for fld in ('positions', 'charges', 'groups') for cn, co in zip(new[fld].cols, f[fld].cols)])))
+        I.oblige("%s/post/atoms/existing-atoms-keep-position-charge-group" % tag, keep_old, 'post')
+        I.oblige("%s/post/atoms/mapped-atoms-adopt-the-others-type-and-extra-row-others-untouched" % tag,
+                 z3.ForAll([s_], z3.Implies(z3.And(s_ >= 0, s_ < N), z3.And(
+                     z3.Select(new['atom_types'].cols[0], s_) == z3.If(memV(s_), z3.Select(fo['atom_types'].cols[0], z3.Select(K, witV(s_))) + off0, z3.Select(f['atom_types'].cols[0], s_)),
+                     z3.Select(new['extra_atom_fields'].cols[0], s_) == z3.If(z3.And(memV(s_), N * z3.Int('extra_row_width') > 0), z3.Select(xf[0].cols[0], z3.Select(K, witV(s_))), z3.Select(pad['atom'].cols[0], s_))))), 'post')
+        app = z3.ForAll([j_], z3.Implies(z3.And(j_ >= 0, j_ < mA), z3.And(
+            *([z3.Select(cn, N + j_) == z3.Select(co, z3.Select(A.cols[0], j_)) for fld in ('positions', 'charges', 'groups') for cn, co in zip(new[fld].cols, fo[fld].cols)]
+              + [z3.Select(new['atom_types'].cols[0], N + j_) == z3.Select(fo['atom_types'].cols[0], z3.Select(A.cols[0], j_)) + off0,
+                 z3.Select(new['extra_atom_fields'].cols[0], N + j_) == z3.Select(xf[0].cols[0], z3.Select(A.cols[0], j_))]))))
+        I.oblige("%s/post/atoms/unmapped-atoms-appended-in-order-with-type-offset" % tag, app, 'post')
+        # ---------------- terms
+        corr = lambda o: z3.If(dom(o), z3.Select(Vv, m.wit(o)), N + posA(o))
+        for ki, (k, w) in enumerate(AM.KINDS):
+            pl = AM.PLURAL[k]
+            res, rty, rx = new[pl], new[k + '_types'], new['extra_%s_fields' % k]
+            old_t, old_ty = f[pl], f[k + '_types']
+            if res is old_t:
+                I.oblige("%s/post/%s/untouched-when-other-has-none" % (tag, pl), z3.And(fo[pl].length == 0, z3.BoolVal(rty is old_ty and rx is pad[k])), 'post')
+                continue
+            d = getattr(res, 'deleted_from', None)
+            offk = to_z3(offs[ki + 1])
+            R, Q = old_t.length, fo[pl].length
+            if d is None:
+                # no existing terms: find_existing_topo returned [] and np.delete(x, []) is x
+                ap = getattr(res, 'appended', None)
+                if ap is None or ap[0] is not old_t:
+                    raise OutOfSubset("%s is not old ++ converted(other) after extend" % pl)
+                src = dst = (lambda x: x)
+                E = lambda r: z3.BoolVal(False)
+                mres = R + Q
+                hits = []
+            else:
+                appended, existing, src, dst = d
+                ap = getattr(appended, 'appended', None)
+                if ap is None or ap[0] is not old_t:
+                    raise OutOfSubset("%s: np.delete is not applied to old ++ converted(other)" % pl)
+                E = mem_of(I, existing)
+                mres = delete_maps(I, appended.length, existing)[0]
+                parts = ghosts(I).cache.get(('concat',) + seq_key(existing))
+                hits = []
+                if parts:
+                    for part in parts:
+                        h = ghosts(I).cache.get(('hit',) + seq_key(part))
+                        if h:
+                            hits.append(h)
+                if len(hits) != 2:
+                    raise OutOfSubset("%s: the superseded rows are not `forward matches + reverse matches`" % pl)
+            r_, q_ = z3.Int('tr'), z3.Int('tq')
+            newrows = ap[1]
+            # old rows that are not superseded survive, in order, with type and (padded) extra row
+            I.oblige("%s/post/%s/other-existing-terms-untouched" % (tag, pl),
+                     z3.ForAll([r_], z3.Implies(z3.And(r_ >= 0, r_ < R, z3.Not(E(r_))), z3.And(
+                         dst(r_) >= 0, dst(r_) < res.length,
+                         *([z3.Select(cn, dst(r_)) == z3.Select(co, r_) for cn, co in zip(res.cols, old_t.cols)]
+                           + [z3.Select(rty.cols[0], dst(r_)) == z3.Select(old_ty.cols[0], r_), z3.Select(rx.cols[0], dst(r_)) == z3.Select(pad[k].cols[0], r_)])))), 'post')
+            # every term of other appears once, between the corresponding atoms, with the other's type + offset and extra row
+            I.oblige("%s/post/%s/every-other-term-added-between-corresponding-atoms" % (tag, pl),
+                     z3.ForAll([q_], z3.Implies(z3.And(q_ >= 0, q_ < Q), z3.And(
+                         dst(R + q_) >= 0, dst(R + q_) < res.length,
+                         *([z3.Select(cn, dst(R + q_)) == corr(z3.Select(co, q_)) for cn, co in zip(res.cols, fo[pl].cols)]
+                           + [z3.Select(rty.cols[0], dst(R + q_)) == z3.Select(fo[k + '_types'].cols[0], q_) + offk,
+                              z3.Select(rx.cols[0], dst(R + q_)) == z3.Select(xf[ki + 1].cols[0], q_)])))), 'post')
+            I.oblige("%s/post/%s/lengths" % (tag, pl), z3.And(res.length == mres, rty.length == mres, rx.length == mres, mres <= R + Q), 'post')
+            p_ = z3.Int('tp')
+            I.oblige("%s/post/%s/every-term-refers-to-existing-atoms" % (tag, pl),
+                     z3.ForAll([p_], z3.Implies(z3.And(p_ >= 0, p_ < res.length), z3.And(*[z3.And(z3.Select(cn, p_) >= 0, z3.Select(cn, p_) < N + mA) for cn in res.cols]))), 'post')
+            if hits:
+                (hf, qf, af, bf), (hr, qr, ar, br) = hits
+                # "the new term" is row q of the converted array (its entries are corr(other's entries): previous obligation)
+                eqf = lambda r, q: z3.And(*[z3.Select(ca, r) == z3.Select(cn, q) for ca, cn in zip(old_t.cols, newrows.cols)])
+                eqr = lambda r, q: z3.And(*[z3.Select(ca, r) == z3.Select(cn, q) for ca, cn in zip(old_t.cols, list(reversed(newrows.cols)))])
+                I.oblige("%s/post/%s/superseded-only-if-same-atoms-forwards-or-backwards" % (tag, pl),
+                         z3.ForAll([r_], z3.Implies(z3.And(r_ >= 0, r_ < R, E(r_)), z3.Or(
+                             z3.And(qf(r_) >= 0, qf(r_) < Q, eqf(r_, qf(r_))), z3.And(qr(r_) >= 0, qr(r_) < Q, eqr(r_, qr(r_)))))), 'post')
+                I.oblige("%s/post/%s/same-atoms-forwards-or-backwards-is-superseded" % (tag, pl),
+                         z3.ForAll([r_, q_], z3.Implies(z3.And(r_ >= 0, r_ < R, q_ >= 0, q_ < Q, z3.Or(eqf(r_, q_), eqr(r_, q_))), E(r_))), 'post')
+        return None
+
+    paths = I.explore(thunk, max_paths=400)
+    n_ret = 0
+    for n, pth in enumerate(paths):
+        if pth.outcome == 'loopend':
+            continue
+        if pth.outcome == 'raise':
+            raise OutOfSubset("extend raises %r on well-formed arguments" % (pth.value,))
+        n_ret += 1
+    S.add_interp_obligations(I, clause='extend: loop invariant, callee preconditions, safety')
+    S.add(I, "extend[%s]/paths-explored" % tagv, [], z3.BoolVal(n_ret >= 1))
+    for n, pth in enumerate([p for p in paths if p.outcome == 'return'][:2]):
+        S.add_canary(I, "extend[%s]/canary#%d" % (tagv, n), [h for h in pth.pc if not z3.is_quantifier(h)])
+    return I, paths
